@@ -170,6 +170,12 @@ def main(out, dmax, cmax, nlayout, seed, anc_states):
                     rows += guarded(one, desc, name, d, bits, ab, cycles, 'main', refocus=rf, _many=True, _label=name)
             if name.endswith(str(d)) and d <= 3:
                 rows += guarded(one, desc, name, d, states[-1], None, cycles, 'simplified', _many=True, _label=name)
+    # the smallest code: one data qubit, no ancilla (only heralding, refocusing flips and the final value remain)
+    for rf_ in (True, False):
+        desc1 = RepetitionCodeDescription.from_chain(length=1, qubit_refocusing=rf_)
+        for cyc in range(0, 5):
+            for bit in (0, 1):
+                rows += guarded(one, desc1, 'chain1%s' % ('' if rf_ else '-norefocus'), 1, (bit,), None, cyc, 'main', refocus=rf_, _many=True, _label='chain1-c%d' % cyc)
     # many cycles (the repeated block is unrolled 5+ times; d >= 3 so that the block has leaves of different length)
     for d_, cyc in ((3, 7), (4, 6), (3, 9)):
         desc_ = RepetitionCodeDescription.from_chain(length=2 * d_ - 1)
